@@ -312,6 +312,19 @@ class CopyExperiment:
     def _mutate(self, run, base, h, seed, tag, allow_delete=True):
         """A few mutations of an entity of the given kind (through handle h)."""
         done = []
+        md = None
+        if base in ("array", "frame", "tag", "mtag", "block"):
+            try:
+                md = h.metadata
+            except Exception:  # noqa
+                md = None
+        if md is not None:
+            # the metadata the entity shows is part of its content: changing it on one side must
+            # not show on the other
+            md.definition = "mutated-md-%s" % tag
+            md.create_property("mdmut-%s-%d" % (tag, seed), [seed])
+            done.append("metadata")
+            run.stats["copy_mutated_through_metadata"] += 1
         if base != "prop":
             h.definition = "mutated-%s-%d" % (tag, seed)
             done.append("definition")
